@@ -108,7 +108,17 @@ type Specs struct {
 	SortAlias map[string]Sort
 	Aliases   map[string]*Contract
 	ConstGlobals map[string]bool
+	TypeResolver func(name string) (Sort, error)
+	LockInvs     []LockInv
+	Guarded      []GuardedField
 }
+
+type LockInv struct {
+	Struct, Field string
+	Cl            Clause
+}
+
+type GuardedField struct{ Struct, Field, Mutex string }
 
 func newSpecs() *Specs {
 	return &Specs{Models: map[string]*ModelDecl{}, UFuns: map[string]*UFunDecl{}, Defs: map[string]*DefDecl{}, Consts: map[string]Clause{},
@@ -128,7 +138,7 @@ func (s *Specs) sortByName(n string) (Sort, error) {
 
 var clauseKeywords = map[string]bool{"func": true, "lib": true, "iface": true, "model": true, "ghostmodel": true, "ufun": true, "def": true, "axiom": true, "const": true,
 	"requires": true, "ensures": true, "assigns": true, "pure": true, "readonly": true, "inline": true, "loop": true, "sink": true, "at": true,
-	"trusted": true, "alias": true, "returns": true, "also": true, "like": true, "fresh": true, "panics": true, "props": true, "sort": true, "params": true, "constglobal": true, "ghost": true}
+	"trusted": true, "alias": true, "returns": true, "also": true, "like": true, "fresh": true, "panics": true, "props": true, "sort": true, "params": true, "constglobal": true, "ghost": true, "gosort": true, "lockinv": true, "guarded": true}
 
 // loadSpecFile parses one contract/spec file. Lines may carry a "//@" prefix (Go comment-only contract files).
 func (s *Specs) loadSpecFile(path string) error {
@@ -204,6 +214,38 @@ func (s *Specs) loadSpecFile(path string) error {
 			if cur != nil {
 				cur.Props = curProps
 			}
+		case "gosort":
+			// gosort Alias full/pkg/path.TypeName : the SMT datatype of a Go struct type
+			f := strings.Fields(rest)
+			if len(f) != 2 || s.TypeResolver == nil {
+				return fmt.Errorf("%s: bad gosort (or no program loaded)", where)
+			}
+			so, err := s.TypeResolver(f[1])
+			if err != nil {
+				return fmt.Errorf("%s: %v", where, err)
+			}
+			s.SortAlias[f[0]] = so
+		case "lockinv":
+			// lockinv pkg.Struct.mutexField : E   (E over "self")
+			parts := strings.SplitN(rest, ":", 2)
+			if len(parts) != 2 {
+				return fmt.Errorf("%s: bad lockinv", where)
+			}
+			name := strings.TrimSpace(parts[0])
+			i := strings.LastIndex(name, ".")
+			c, err := mkClause(parts[1])
+			if err != nil {
+				return err
+			}
+			s.LockInvs = append(s.LockInvs, LockInv{Struct: name[:i], Field: name[i+1:], Cl: c})
+		case "guarded":
+			// guarded pkg.Struct.field by mutexField
+			f := strings.Fields(rest)
+			if len(f) != 3 || f[1] != "by" {
+				return fmt.Errorf("%s: bad guarded clause", where)
+			}
+			i := strings.LastIndex(f[0], ".")
+			s.Guarded = append(s.Guarded, GuardedField{Struct: f[0][:i], Field: f[0][i+1:], Mutex: f[2]})
 		case "constglobal":
 			s.ConstGlobals[rest] = true
 		case "sort":
